@@ -61,8 +61,11 @@ class FakeConnection:
         i = self.data.find(b'\n', self.pos)
         end = len(self.data) if i < 0 else i + 1
         if end - self.pos > self.limit:
-            # asyncio.StreamReader.readline: a line longer than the reader's limit raises ValueError (and drops buffered data)
-            self.pos = end
+            # asyncio.StreamReader.readline: a line longer than the reader's limit raises ValueError and drops what is buffered:
+            # the whole line when its LF has arrived, otherwise only the part received so far (`arrive` = how much of the stream
+            # has arrived at that moment; the rest of the line is then read as if it were a new line)
+            arrive = getattr(self, 'arrive', None)
+            self.pos = arrive if (arrive is not None and self.pos + self.limit < arrive < end) else end
             raise ValueError('Separator is not found, and chunk exceed the limit')
         out = self.data[self.pos:end]
         self.pos = end
